@@ -9,5 +9,5 @@ CONSTANTS
   Atomic = FALSE
   Bug = "none"
   Emit = TRUE
-INVARIANTS NoRace JoinBeforeReturn ScheduleIndependent PerCellAndFrame FrameAlways
+INVARIANTS FootprintsAreSets NoRace JoinBeforeReturn ScheduleIndependent PerCellAndFrame FrameAlways
 CHECK_DEADLOCK FALSE
